@@ -288,14 +288,30 @@ theorem rawrecv_delivers_in_order_at_most_once (s : Proto.RawRecv.State) (hr : P
     ((Proto.RawRecv.line s).map Proto.RawRecv.glue).Sublist s.rin :=
   (Proto.RawRecv.reach_inv s hr).order
 
-/-- … and what Recv returns is split exactly at byte four: the header is the four-byte id the message arrived with -/
-theorem rawrecv_header_is_the_first_four_bytes (s : Proto.RawRecv.State) (hr : Proto.RawRecv.Reach s) :
+/-- … and what Recv returns on XREQ / XSURVEYOR is split exactly at byte four: the header is the four-byte id the
+    message arrived with (the socket's kind never changes along a history: `reachFrom_kind`) -/
+theorem rawrecv_header_is_the_first_four_bytes (s : Proto.RawRecv.State) (hr : Proto.RawRecv.ReachFrom Proto.RawRecv.init s) :
     ∀ x ∈ s.rout, x.2.1.length = 4 := by
   intro x hx
-  exact (Proto.RawRecv.reach_inv s hr).hdr4 x (by simp [Proto.RawRecv.line, hx])
+  have hk := (Proto.RawRecv.reachFrom_kind _ s hr).1
+  have hi := (Proto.RawRecv.reach_inv s (Proto.RawRecv.reachFrom_reach _ s Proto.RawRecv.Reach.init hr)).hdr4 x
+    (by simp [Proto.RawRecv.line, hx])
+  rw [hk] at hi
+  exact hi
+
+/-- XSUB (the raw subscriber a device reads publications from) hands every message over whole, with an empty header -/
+theorem xsub_hands_messages_over_whole (s : Proto.RawRecv.State) (hr : Proto.RawRecv.ReachFrom Proto.RawRecv.initSub s) :
+    (∀ x ∈ s.rout, x.2.1 = []) ∧ ((Proto.RawRecv.line s).map Proto.RawRecv.glue).Sublist s.rin := by
+  have hk := (Proto.RawRecv.reachFrom_kind _ s hr).1
+  have inv := Proto.RawRecv.reach_inv s (Proto.RawRecv.reachFrom_reach _ s Proto.RawRecv.Reach.initSub hr)
+  refine ⟨?_, inv.order⟩
+  intro x hx
+  have hi := inv.hdr4 x (by simp [Proto.RawRecv.line, hx])
+  rw [hk] at hi
+  exact List.eq_nil_of_length_eq_zero hi
 
 /-- a body too short to carry an id is read and dropped: it is never queued, held or returned -/
-theorem rawrecv_drops_short_bodies (s : Proto.RawRecv.State) (p : Nat) (b : Bytes) (hs : b.length < 4)
+theorem rawrecv_drops_short_bodies (s : Proto.RawRecv.State) (p : Nat) (b : Bytes) (hs : b.length < s.idLen)
     (hf : s.backlog.find? (fun pb => !(s.held.any (fun x => x.1 == pb.1))) = some (p, b)) :
     ∃ s', Proto.RawRecv.nextBacklog s = some (s', []) ∧ Proto.RawRecv.line s' = Proto.RawRecv.line s ∧ s'.rin = s.rin ++ [(p, b)] := by
   refine ⟨{ s with backlog := s.backlog.erase (p, b), rin := s.rin ++ [(p, b)] }, ?_, rfl, rfl⟩
